@@ -12,6 +12,7 @@ import (
 	"sort"
 	"strings"
 	"sync"
+	"time"
 
 	"verifh/ev"
 	"verifh/props/c05/ref"
@@ -636,6 +637,11 @@ func handlerSnapshot(run *ev.Run, g string) {
 		}
 		probes := []probe{
 			{"GET", "/coll/k1", "", 200},
+			// verbs outside GET / POST / PUT / DELETE name no method when no header says which one
+			{"HEAD", "/coll/k1", "", 400},
+			{"OPTIONS", "/coll/k1", "", 400},
+			{"HEAD", "/coll", "", 400},
+			{"TRACE", "/coll/k1", "", 400},
 			{"DELETE", "/coll/k1", "", 400},
 			{"GET", "/coll", "", 400},
 			{"GET", "/coll?q=late", "", 400},
@@ -654,9 +660,9 @@ func handlerSnapshot(run *ev.Run, g string) {
 				req.Header.Set("X-RestLi-Method", p.hdr)
 			}
 			rec.Drain()
-			resp, err := http.DefaultClient.Do(req)
+			resp, err := (&http.Client{Timeout: 5 * time.Second}).Do(req)
 			if err != nil {
-				run.Violation(g+"/"+m.name+"/handler-snapshot/no-response", map[string]any{"probe": p.path, "error": err.Error()})
+				run.Violation(g+"/"+m.name+"/handler-snapshot/no-response", map[string]any{"probe": p.verb + " " + p.path, "error": err.Error()})
 				continue
 			}
 			io.Copy(io.Discard, resp.Body)
@@ -667,13 +673,51 @@ func handlerSnapshot(run *ev.Run, g string) {
 				ok = false
 			}
 			run.Count("handler_snapshot_probes", 1)
-			if !ok {
+			if !ok && (p.verb == "HEAD" || p.verb == "OPTIONS" || p.verb == "TRACE") {
+				run.Violation(g+"/"+m.name+"/verb-outside-the-protocol-routed/"+p.verb, map[string]any{"generation": g, "mounting": m.name, "probe": p.verb + " " + p.path, "status": resp.StatusCode, "expected": p.want, "invocations": invDesc(inv)})
+			} else if !ok {
 				run.Violation(g+"/"+m.name+"/handler-snapshot/late-registration-visible", map[string]any{"generation": g, "mounting": m.name, "probe": p.verb + " " + p.path, "status": resp.StatusCode, "expected": p.want, "invocations": invDesc(inv)})
 			} else {
 				run.Distinct(g + "|snapshot|" + m.name + "|" + p.path + p.verb)
 			}
 		}
 		srv.Close()
+		// a handler taken now is a snapshot of the tree as it is now: everything registered in between is served
+		var h2 http.Handler
+		if m.mux {
+			mux := http.NewServeMux()
+			server.AddToMux(mux)
+			h2 = mux
+		} else {
+			h2 = server.Handler()
+		}
+		ln2, err := net.Listen("tcp", "127.0.0.1:0")
+		if err != nil {
+			run.Inconclusive("listen: " + err.Error())
+			return
+		}
+		srv2 := &http.Server{Handler: h2}
+		go srv2.Serve(ln2)
+		for _, p := range []probe{{"GET", "/coll/k1", "", 200}, {"DELETE", "/coll/k1", "", 200}, {"GET", "/coll", "", 200}, {"GET", "/coll/k1/latesub/k2", "", 200}, {"GET", "/lateroot/k1", "", 200}} {
+			run.Eval(1)
+			req, _ := http.NewRequest(p.verb, "http://"+ln2.Addr().String()+m.prefix+p.path, nil)
+			rec.Drain()
+			resp, err := (&http.Client{Timeout: 5 * time.Second}).Do(req)
+			if err != nil {
+				run.Violation(g+"/"+m.name+"/later-handler/no-response", map[string]any{"probe": p.verb + " " + p.path, "error": err.Error()})
+				continue
+			}
+			io.Copy(io.Discard, resp.Body)
+			resp.Body.Close()
+			inv := rec.Drain()
+			run.Count("later_handler_probes", 1)
+			if resp.StatusCode/100 != 2 || len(inv) != 1 {
+				run.Violation(g+"/"+m.name+"/later-handler/registration-made-before-it-not-served", map[string]any{"generation": g, "mounting": m.name, "probe": p.verb + " " + p.path, "status": resp.StatusCode, "invocations": invDesc(inv)})
+			} else {
+				run.Distinct(g + "|later-handler|" + m.name + "|" + p.path + p.verb)
+			}
+		}
+		srv2.Close()
 	}
 }
 
